@@ -110,6 +110,7 @@ def main():
             return to_int.get(tuple(x), -1)
         return x
     raising = set(spec.get("raising", []))
+    unpicklable = set(spec.get("unpicklable", []))  # tasks whose result cannot be sent back to the parent (a local function inside): a failure of that id
     raising_empty = set(spec.get("raising_empty", []))  # tasks failing with an exception that carries no message (`raise ValueError()`, a bare assert)
     task_ms, task_jitter = spec.get("task_ms", 0), spec.get("task_jitter", False)
     cons_ms = spec.get("consumer_ms", 0)
@@ -147,6 +148,8 @@ def main():
             d = (dev_id * 2654435761 % 1000) / 1000.0 * task_ms * 2
         if d:
             time.sleep(d / 1000.0)
+        if dev_id in unpicklable:
+            return ["r", dev_id, (lambda: dev_id)]
         if dev_id in raising_empty:
             raise ValueError()
         if dev_id in raising:
